@@ -1,0 +1,38 @@
+//go:build verif
+
+package store
+
+// Contracts for /verif (contract-based deductive verification of this package).
+// Comment-only file: only the lines starting with "//@" are read, by /verif/bin/govc.
+
+//@ func (*Local).debug trusted
+//@   modifies nothing
+//@ func (*Local).getRelPath trusted
+//@   modifies nothing
+//@ func newLocalFile trusted
+//@   modifies nothing
+
+// T: pattern.MatchString is an uninterpreted predicate of pattern and string
+// ---------------------------------------------------------------- eligibility of a scanned file (C17)
+
+//@ func (*Local).shouldIgnore
+//@   on return assert hidden-files: called(path/filepath.Base) && !dir.IncludeHidden && relPath != "" && hasprefix(lastret(path/filepath.Base, 0), ".") ==> result
+//@   on return assert ignore-patterns: exists(k, 0, len(dir.Ignore), dir.Ignore[k].MatchString(relPath)) ==> result
+//@   on return assert include-patterns: !isDir && len(dir.Include) > 0 && forall(k, 0, len(dir.Include), !dir.Include[k].MatchString(relPath)) ==> result
+//@   on return assert nothing-else-is-ignored: result ==> (!dir.IncludeHidden && relPath != "" && called(path/filepath.Base) && hasprefix(lastret(path/filepath.Base, 0), ".")) || exists(k, 0, len(dir.Ignore), dir.Ignore[k].MatchString(relPath)) || (!isDir && len(dir.Include) > 0 && forall(k, 0, len(dir.Include), !dir.Include[k].MatchString(relPath)))
+//@   modifies nothing
+//@   loop 0 invariant -1 <= rangeindex && rangeindex < len(dir.Ignore) && forall(k, 0, rangeindex+1, !dir.Ignore[k].MatchString(relPath))
+//@   loop 1 invariant -1 <= rangeindex && rangeindex < len(dir.Include) && forall(k, 0, rangeindex+1, !dir.Include[k].MatchString(relPath)) && forall(k, 0, len(dir.Ignore), !dir.Ignore[k].MatchString(relPath))
+
+//@ func (*Local).handleNode
+//@   track store scanFiles
+//@   before store scanFiles assert appended-only-if-eligible: info != nil && old(err) == nil && !lastret(fs.FileInfo.IsDir, 0) && relPath != "" && called((*Local).shouldIgnore) && !lastret((*Local).shouldIgnore, 0) && lastarg((*Local).shouldIgnore, 1) == relPath && !lastarg((*Local).shouldIgnore, 2) && dir.scanTimeStart - lastret(fs.FileInfo.ModTime, 0) >= dir.MinAge && (dir.shouldAllow == nil || (called(shouldAllow) && lastret(shouldAllow, 0))) && lastret(newLocalFile, 1) == nil && relPath == lastret((*Local).getRelPath, 0) && lastarg((*Local).getRelPath, 1) == path
+//@   on return assert eligible-is-appended: r0 == nil && info != nil && old(err) == nil && called(newLocalFile) && lastret(newLocalFile, 1) == nil && (dir.shouldAllow == nil || (called(shouldAllow) && lastret(shouldAllow, 0))) ==> stored(scanFiles)
+//@   on return assert ignored-directories-are-skipped: info != nil && old(err) == nil && called(fs.FileInfo.IsDir) && lastret(fs.FileInfo.IsDir, 0) && called((*Local).shouldIgnore) && lastret((*Local).shouldIgnore, 0) ==> r0 == filepath.SkipDir
+
+//@ func (*Local).Scan
+//@   on return assert disabled-scans-nothing: called(os.Lstat) && lastret(os.Lstat, 1) == nil ==> len(r0) == 0 && r2 == nil && !called(fileutil.Walk)
+//@   before call fileutil.Walk assert walks-the-root: arg0 == dir.Root && stored(scanFiles)
+//@   before call os.Lstat assert looks-for-the-disable-marker: arg0 == pathjoin(dir.Root, disabledName)
+//@   track store scanFiles
+
